@@ -18,3 +18,21 @@ Theorem roundtrip_preserves_store_view :
     store_view tag o' = store_view tag o.
 Proof. exact Proofs.StoreRoundtrip.roundtrip_preserves_store_view. Qed.
 Print Assumptions roundtrip_preserves_store_view.
+
+(* bundles (save_to_file / load_from_file, bundlify): a bundle re-constructed from its own encoding holds members
+   with the same store views, in the same order (from Props/C01.v roundtrip_equal_bundle_partial) *)
+From V Require Import Proofs.C01Parse Proofs.C01Bundle.
+Theorem bundle_roundtrip_preserves_store_views :
+  forall vr ev w pattern_ok selectors_ok, vr_year_pad vr = true ->
+  forall ids, closed_ok vr w ids = true -> registry_ok w = true ->
+  forall pids, forallb (fun k => mem_ustr k ids) pids = true ->
+    forallb (fun k => match find_class (wclasses w) k with Some c => parse_class_ok w c | None => false end) pids = true ->
+  forall fuel kid allow interop kw vrefs o o' c tag,
+    find_class (wclasses w) kid = Some c -> bundle_ok vr w ids c = true ->
+    plain_dict kw = true ->
+    run vr ev w pattern_ok selectors_ok fuel (RConstruct kid allow interop kw vrefs) = Ok o ->
+    bundle_members_ok w pids kw o = true ->
+    run vr ev w pattern_ok selectors_ok fuel (RConstruct kid allow interop (omem o) vrefs) = Ok o' ->
+    bundle_views tag o' = bundle_views tag o.
+Proof. exact Proofs.StoreRoundtrip.bundle_roundtrip_preserves_store_views. Qed.
+Print Assumptions bundle_roundtrip_preserves_store_views.
